@@ -1,2 +1,11 @@
 (* C01 — the property theorems about the scheduler model, and nothing else. *)
 From VF Require Import Sched.Proofs.
+Open Scope Z_scope.
+
+(* COMPLETED is absorbing for task.complete: completing a task that already
+   has a response changes nothing (no second response, no worker change,
+   no output). *)
+Theorem completed_absorbing : forall s t r0 r b,
+  t_resp (get_task s t) = Some r0 -> complete_task t r b s = s.
+Proof. exact completed_absorbing. Qed.
+Print Assumptions completed_absorbing.
